@@ -175,7 +175,11 @@ func (w *World) spawnRaw() {
 // hostileOp performs one hostile operation that is not a request: configuration texts and state files.
 func (w *World) hostileOp() {
 	c := w.C
-	switch c.Choose(3) {
+	switch c.Choose(4) {
+	case 3:
+		// a plain restart: the start-time synchronisation reads whatever hostile annotations the pods carry by now
+		w.S.Stat("op.restart")
+		w.killDaemon(false)
 	case 0:
 		// restart with a hostile galaxy.json (or back to the good one)
 		if w.badConfig {
